@@ -5,6 +5,7 @@ import (
 	"fmt"
 	"sort"
 	"sync"
+	"time"
 
 	"src.elv.sh/pkg/cli"
 	"src.elv.sh/zzverif/simrt"
@@ -167,6 +168,9 @@ func runC32(c *Ctx) {
 		// A closer makes sure the loop ends: it returns after all producers are done.
 		s.Spawn("closer", func() {
 			producers.Wait()
+			// Fake time only advances when every goroutine is blocked: after
+			// this sleep the loop is idle in its select with nothing pending.
+			time.Sleep(time.Second)
 			r := &c32rec{kind: "return", id: 0, invoke: simrt.CurStep(), producer: -2}
 			lp.Return("buf0", retErr(0))
 			r.done = simrt.CurStep()
@@ -297,23 +301,50 @@ func checkC32(c *Ctx, cs *c32case, recs []*c32rec, loopGID, runBuf string, runEr
 	}
 	// Every redraw request made before the loop returned is followed by a
 	// redraw that starts after it; a full request by a full (or the final) one.
+	//
+	// Two situations. (a) The loop was ended by the closer, which returns only
+	// after the whole system has been idle for a simulated second: then the
+	// loop had every chance, so each request needs an ordinary (non-final)
+	// redraw after it, and each full request an ordinary FULL redraw after it.
+	// (b) Some earlier Return won: the loop may legitimately have returned
+	// before serving a request; then only what must hold in any case is
+	// checked: a later redraw exists (the final one counts), and if two or more
+	// ordinary redraws started after a full request, one of the first two is
+	// full (only the first may have read the flag before the request).
+	sort.SliceStable(returns, func(i, j int) bool { return returns[i].done < returns[j].done })
+	quiescentEnd := len(returns) > 0 && returns[0].producer == -2
 	for _, q := range redrawReqs {
 		if q.done >= finalAt {
 			continue // the loop was already returning
 		}
-		ok, okFull := false, false
+		var after []*c32rec // ordinary redraws that started after the request
+		finalAfter := false
 		for _, r := range cbs {
 			if r.kind == "redrawcb" && r.invoke > q.done {
-				ok = true
-				if r.flag&cli.VerifFullRedraw != 0 || r.flag&cli.VerifFinalRedraw != 0 {
-					okFull = true
+				if r.flag&cli.VerifFinalRedraw != 0 {
+					finalAfter = true
+				} else {
+					after = append(after, r)
 				}
 			}
 		}
-		if !ok {
-			c.Violation("redraw", "the redraw request that completed at step %d (full=%v) was never followed by a redraw (final redraw at step %d)", q.done, q.full, finalAt)
-		} else if q.full && !okFull {
-			c.Violation("redraw", "the FULL redraw request that completed at step %d was only followed by partial redraws", q.done)
+		fullAmong := func(rs []*c32rec) bool {
+			for _, r := range rs {
+				if r.flag&cli.VerifFullRedraw != 0 {
+					return true
+				}
+			}
+			return false
+		}
+		switch {
+		case quiescentEnd && len(after) == 0:
+			c.Violation("redraw", "the redraw request that completed at step %d (full=%v) was never followed by a redraw although the loop stayed idle until the final return at step %d", q.done, q.full, finalAt)
+		case quiescentEnd && q.full && !fullAmong(after):
+			c.Violation("redraw", "the FULL redraw request that completed at step %d was followed by %d partial redraws only (downgraded)", q.done, len(after))
+		case !quiescentEnd && len(after) == 0 && !finalAfter:
+			c.Violation("redraw", "the redraw request that completed at step %d (full=%v) was never followed by any redraw", q.done, q.full)
+		case !quiescentEnd && q.full && len(after) >= 2 && !fullAmong(after[:2]):
+			c.Violation("redraw", "the FULL redraw request that completed at step %d was followed by two partial redraws (steps %d, %d): downgraded", q.done, after[0].invoke, after[1].invoke)
 		}
 	}
 	// The loop returns the first committed result.
